@@ -11,6 +11,10 @@ TV:      valid texts with adversarial strings (shared 8-byte prefixes/suffixes f
          AllowDuplicateNames on duplicate-free input, a no-op WithUnmarshalers matching any (both
          disable the specialised untyped decoder), map[string]any, []any, a named empty interface,
          **any.
+Replay:  spec/Arshal.tla!Unmarshal on any, []any, map[string]any, *any, [1]any, struct{any}:
+         every (pre-existing value, input, options) of a bounded universe under default,
+         AllowDuplicateNames, StringifyNumbers, both, RejectUnknownMembers+MatchCaseInsensitive -
+         the options that switch the specialised untyped decoder off must not change the tree.
 """
 
 
@@ -20,5 +24,9 @@ def run(ctx):
     s = ctx.tv("arshal", "Trace_Arshal", {"seed": ctx.seed, "n": n, "mode": "c03"}, consts={"MaxD": 10000})
     ctx.part("driver", **{k: v for k, v in s.items() if not k.startswith("_")})
     ctx.assumptions += ["the float64 nearest to a literal (and its shortest digits, the form in which trees are compared) is computed by the projection with strconv; correct rounding itself is decided in C10"]
+    # the type-directed model on untyped destinations: empty, pre-populated, nested, behind
+    # pointers and in struct fields, with the options that switch the specialised decoder off
+    import arshalfam as af
+    af.run_model(ctx, "untyped", af.ANYFAM, {"u"}, "C03", uopts=af.ANY_UOPTS, D=1 if ctx.quick else 2)
     ctx.cov["distinct_nontrivial"] = n
     ctx.cov["rule"] = "random (text, route) pairs"
